@@ -231,7 +231,7 @@ theorem slotAt_below (a : Arr) (i : Nat) (h : Wf a) (hi : i < a.count) : slotAt 
   rw [List.getElem?_take_of_lt hi]
 
 /-! ### any sequence of array operations -/
-inductive BufOp | push (gn : Nat) | remove (i : Nat) | clear | deleteAll
+inductive BufOp | push (gn : Nat) | remove (i : Nat) | clear | deleteAll | peek (i : Nat)
   deriving Repr
 
 def stepBuf (a : Arr) : BufOp → Option Arr
@@ -239,6 +239,7 @@ def stepBuf (a : Arr) : BufOp → Option Arr
   | .remove i => remove a i
   | .clear => some (GenNodeArray.clear a)
   | .deleteAll => some (deleteEntries a)
+  | .peek i => some (check a i)        -- `operator[]( i )`: `Check( i )`, then read the slot
 
 def runBuf (a : Arr) : List BufOp → Option Arr
   | [] => some a
@@ -250,6 +251,7 @@ def stepList (l : List (Option Nat)) : BufOp → List (Option Nat)
   | .remove i => l.eraseIdx i
   | .clear => []
   | .deleteAll => []
+  | .peek _ => l
 
 theorem step_spec (a : Arr) (op : BufOp) (h : Wf a) :
     ∃ a', stepBuf a op = some a' ∧ Wf a' ∧ view a' = stepList (view a) op := by
@@ -271,6 +273,9 @@ theorem step_spec (a : Arr) (op : BufOp) (h : Wf a) :
     exact ⟨_, rfl, h1, h2⟩
   | deleteAll =>
     obtain ⟨h1, h2⟩ := deleteEntries_spec a h
+    exact ⟨_, rfl, h1, h2⟩
+  | peek i =>
+    obtain ⟨h1, h2, _, _⟩ := check_spec a i h
     exact ⟨_, rfl, h1, h2⟩
 
 theorem run_spec (a : Arr) (ops : List BufOp) (h : Wf a) :
